@@ -290,6 +290,10 @@ def take_pass(c, L):
 def wake_pass(c, L):
     """second loop: the i-th taken entry is woken, once, with the scheduler at that entry's scheduled time (never early)"""
     ev = since(c.trace, 2)
+    if L.phase == 'entry':
+        # the taking loop was left only when nothing due is left in the queue
+        q = head(c._eng, c.st)
+        return z3.Or(q['empty'], q['time'] > to_real(c._params['value']))
     if not ev or L.phase != 'after':
         return z3.BoolVal(True)
     wk = [e for e in ev if e[0] == 'wakeup']
@@ -315,6 +319,10 @@ def setter_post(c):
     if not heads:
         cl.append(z3.BoolVal(not [e for e in t if e[0] in ('pop', 'wakeup', 'expire')]))     # nothing pending: time just moves
         return z3.And(*cl)
+    if any(e[1] == 0 for e in heads):
+        # recursive mode: the loop is left only when nothing due is left
+        q = head(c._eng, c.st)
+        cl.append(z3.Or(q['empty'], q['time'] > v))
     if any(e[1] in (1, 2) for e in heads):
         # the list of taken entries is left empty for the next call
         cleared = [i for i, e in enumerate(t) if e[0] == 'expired-cleared']
